@@ -192,7 +192,7 @@ def unit(item):
                 demanded = [r_ for r_ in reasons if r_ in DEMANDED]
                 if len(demanded) < len(reasons):  # only pure faults of the listed classes are demanded
                     p.add(not_demanded=1)
-                    p.note(f"{spec.key}: checker accepts solutions the oracle calls infeasible for a reason outside the property's list ({reasons[0]}), e.g. {acts} on {iid}")
+                    p.note(f"{spec.kind}: the checker accepts solutions the oracle calls infeasible for a reason outside the property's list ({reasons[0]}); counted under not_demanded, not a violation")
                     continue
                 p.violation(
                     sig(PID, spec, "checker_accepts_infeasible", demanded[0]),
